@@ -35,14 +35,16 @@ Proof. exact (reset_honoured c post seg k suf). Qed.
 (* ... and it IS honoured by a new epoch: with reset_ up (which is what a pending reset/reboot
    means inside an epoch, second statement), teardown not requested, the thread left alone with
    run_condition() = true enters initialization_step() again - or, if run_ is down (reboot),
-   blocks waiting for run - within 17 own moves, starting at most one further step *)
+   blocks waiting for run - within 17 own moves, starting at most one further step.  [in_loop] is
+   every program point except "blocked in the wait" and the exit path *)
 Theorem C09_reset_reaches_new_epoch c :
   c_rst c = true -> c_td c = false -> c_mid c = false -> in_loop (c_pc c) = true ->
   exists c' k, run_until_init 20 c 0 = (c', k)
   /\ run_moves c (repeat (MThread true) k) = Some c' /\ k <= honour_bound
   /\ exists post, c_trace c' = post ++ c_trace c /\ count_steps post <= 1
-     /\ ((c_run c = true /\ c_pc c' = PInitBody /\ exists post', post = EInit :: post')
-         \/ (c_run c = false /\ c_pc c' = PSleep /\ c_woken c' = false /\ count_init_step post <= 1)).
+     /\ ((c_pc c' = PInitBody /\ exists post', post = EInit :: post')
+         \/ (c_run c = false /\ c_pc c' = PSleep /\ c_woken c' = false /\ count_init_step post <= 1))
+     /\ (c_run c = true -> c_pc c' = PInitBody).
 Proof. exact (reset_progress c). Qed.
 
 Theorem C09_pending_reset_is_visible c :
@@ -107,6 +109,47 @@ Theorem C09_bounded_exit_run_condition_false c ms c' d :
   /\ (d <= thread_moves ms -> c_pc c' = PExited)
   /\ (exists post, c_trace c' = post ++ c_trace c /\ count_steps post <= 1).
 Proof. exact (bounded_exit_rc_false c ms c' d). Qed.
+
+(* bounded exit (b'): at ANY program point, if run_ is up and the continuation contains no
+   reboot() and only false run_condition answers: exit within dist2 <= 13 own moves, never
+   disabled, no step from the points where (b) does not apply, at most one more initialisation *)
+Theorem C09_bounded_exit_run_condition_false_running c ms c' :
+  reachable c -> c_run c = true -> c_mid c = false ->
+  forallb quiet_rc ms = true -> run_moves c ms = Some c' ->
+  (c_pc c' <> PExited -> exists c'', step c' (MThread false) = Some c'')
+  /\ thread_moves ms <= dist2 (c_pc c) /\ dist2 (c_pc c) <= exit_bound_running
+  /\ (dist2 (c_pc c) <= thread_moves ms -> c_pc c' = PExited)
+  /\ exists post, c_trace c' = post ++ c_trace c
+       /\ count_steps post <= may_step (c_pc c) /\ count_inits post <= may_init (c_pc c).
+Proof. exact (bounded_exit_running c ms c'). Qed.
+
+(* ... and with run_ DOWN the carve-out is genuine: the thread parks in the wait and, without
+   run()/reboot()/teardown() (or a spurious wake-up), never moves again; wait() is never enabled *)
+Theorem C09_bounded_exit_not_running_refuted :
+  reachable init /\ c_run init = false /\ c_td init = false /\ distb (c_pc init) = None
+  /\ run_moves init (repeat (MThread false) 4) = Some asleep0
+  /\ forall ms c'', forallb no_wake ms = true -> run_moves asleep0 ms = Some c'' ->
+       c_pc c'' <> PExited /\ (forall b, step c'' (MThread b) = None) /\ step c'' (MCmd Wait) = None.
+Proof. exact not_running_sleeps. Qed.
+
+(* the answers of step_number() and is_running() against the history *)
+Theorem C09_query_answers c post e suf :
+  reachable c -> c_trace c = post ++ e :: suf ->
+  match e with
+  | EQStep k => qstep_ok k suf = true
+  | EQRun false => can_be_false suf = true
+  | EQRun true => runreq suf = true /\ rae suf <> Some false
+  | _ => True
+  end.
+Proof. exact (query_answers c post e suf). Qed.
+
+(* commands issued before boot(): every valuation of the three flags is reachable with the thread
+   still at its first point *)
+Theorem C09_preboot_valuations_reachable r s t :
+  exists ks c, run_moves init ks = Some c /\ c_pc c = PTop /\ c_mid c = false
+               /\ c_run c = r /\ c_rst c = s /\ c_td c = t
+               /\ forallb (fun m => match m with MCmd _ | MRebootEnd => true | _ => false end) ks = true.
+Proof. exact (preboot_valuations r s t). Qed.
 
 (* the executable step function generates exactly [reachable] *)
 Theorem C09_step_generates_reachable c :
@@ -194,6 +237,10 @@ Print Assumptions C09_exit_only_by_teardown_or_condition.
 Print Assumptions C09_exit_recorded_iff_final_store_done.
 Print Assumptions C09_bounded_exit.
 Print Assumptions C09_bounded_exit_run_condition_false.
+Print Assumptions C09_bounded_exit_run_condition_false_running.
+Print Assumptions C09_bounded_exit_not_running_refuted.
+Print Assumptions C09_query_answers.
+Print Assumptions C09_preboot_valuations_reachable.
 Print Assumptions C09_step_generates_reachable.
 Print Assumptions C09_relational_semantics_agree.
 Print Assumptions C09_schedule_words_reachable.
